@@ -163,9 +163,9 @@ impl Check for C11 {
                     let mut orig = Value::Null;
                     if kind == 2 {
                         cfg["chainSourceMap"] = json!(true);
-                        let source = *t.pick(&["../src/a.ts", "a.ts", "sub/dir/c.ts", "../src/m\u{f3}dulo \u{540d}.ts"]);
-                        // sometimes the sources are relative to a sourceRoot
-                        let root = *t.pick(&[None, None, Some("../root"), Some("lib/")]);
+                        let source = *t.pick(&["../src/a.ts", "a.ts", "sub/dir/c.ts", "../src/m\u{f3}dulo \u{540d}.ts", "/home/dev/proj/src/abs.ts", "webpack://pkg/./src/url.ts"]);
+                        // sometimes the sources are relative to a sourceRoot (not the absolute path / the URL)
+                        let root = if source.starts_with('/') || source.contains("://") { None } else { *t.pick(&[None, None, Some("../root"), Some("lib/")]) };
                         let (m, line_of) = original_map(&mut t, p.lines, source, root);
                         // the reference as a line comment, a line comment followed by blanks, or a block comment
                         let b64 = smap::encode_base64(m.to_string().as_bytes());
